@@ -96,10 +96,11 @@ def prepare(prep, path):
 
 
 def fresh_copy(src, dst):
-    shutil.copyfile(src, dst)
-    for ext in ('-journal', '-wal', '-shm'):
+    # a new inode every time: a connection leaked by a previous (faulted) execution must not touch this one
+    for ext in ('', '-journal', '-wal', '-shm'):
         if os.path.exists(dst + ext):
             os.remove(dst + ext)
+    shutil.copyfile(src, dst)
 
 
 def work_instance(arg):
